@@ -210,11 +210,12 @@ KwTag(S, n) ==
     IN  IF ad = <<"-">> THEN base ELSE [d \in Dests |-> IF d = ad[1] THEN Max2(base[d], ad[2]) ELSE base[d]]
 
 (* the plan may depend on the epoch: the largest re-iteration index visible in the arguments *)
-PlanAtE(n, k, tag) ==
-    LET byit == G.plan_it[n]
+RunCfg(S) == G.runs[S.rid]          \* per-run plans: [plan, plan_it, recreq, recfalsy, recnone]
+PlanAtE(S, n, k, tag) ==
+    LET byit == RunCfg(S).plan_it[n]
         eps == {tag[d] : d \in Dests}
         ep == IF eps = {} THEN 0 ELSE CHOOSE x \in eps : \A y \in eps : y <= x
-        pl == IF Len(byit) = 0 THEN G.plan[n] ELSE byit[IF ep + 1 > Len(byit) THEN Len(byit) ELSE ep + 1]
+        pl == IF Len(byit) = 0 THEN RunCfg(S).plan[n] ELSE byit[IF ep + 1 > Len(byit) THEN Len(byit) ELSE ep + 1]
     IN  pl[IF k > Len(pl) THEN Len(pl) ELSE k]
 
 (***************************************************************************)
@@ -312,14 +313,14 @@ BodyDone(S, t) ==
         n == f.n
         a == A(n)
         tag == KwTag(S, n)
-        o == PlanAtE(n, f.k, tag)
-        req == G.recreq[n]
+        o == PlanAtE(S, n, f.k, tag)
+        req == RunCfg(S).recreq[n]
         S0 == [S EXCEPT !.ends = Append(@, <<n, f.k>>)]
         ok(r) == CollabThen(SetTop(S0, t, [f EXCEPT !.result = r]), t, "ev", "ecomp")    \* emit node_complete(None)
     IN  CASE o[1] = "ok" ->
                IF req >= 0 /\ tag[n] < req
-               THEN ok(<<"rec", tag, IF \E i \in 1..Len(G.recnone[n]) : G.recnone[n][i] = tag[n] + 1 THEN <<"none">>
-                                     ELSE <<n, IF G.recfalsy[n] THEN 0 ELSE tag[n] + 1>>>>)
+               THEN ok(<<"rec", tag, IF \E i \in 1..Len(RunCfg(S).recnone[n]) : RunCfg(S).recnone[n][i] = tag[n] + 1 THEN <<"none">>
+                                     ELSE <<n, IF RunCfg(S).recfalsy[n] THEN 0 ELSE tag[n] + 1>>>>)
                ELSE ok(<<"val", tag, "v">>)
           [] o[1] = "none"  -> ok(<<"none", NoTag, "-">>)
           [] o[1] = "falsy" -> ok(<<"falsy", NoTag, "-">>)
@@ -542,9 +543,8 @@ Resume(S, t) ==
                          t, <<"cancelled">>))
         ELSE Exec(S0, t)
 
-Init ==
-    /\ act = <<"init">>
-    /\ st = [res |-> [n \in Nodes |-> Absent], hid |-> {}, proc |-> {}, hidp |-> {}, sw |-> [n \in Nodes |-> "-"],
+InitSt(rid) ==
+           [rid |-> rid, res |-> [n \in Nodes |-> Absent], hid |-> {}, proc |-> {}, hidp |-> {}, sw |-> [n \in Nodes |-> "-"],
           active |-> {}, addl |-> [n \in Nodes |-> <<"-">>],
           conds |-> [c \in Nodes \cup {"run"} |-> <<>>], ev |-> [n \in Nodes |-> FALSE], evw |-> [n \in Nodes |-> <<>>],
           tasks |-> << [name |-> "main", stack |-> << [fn |-> "run", pc |-> "c0", out |-> <<"pending">>] >>, status |-> "ready", wait |-> <<"new">>,
@@ -552,6 +552,8 @@ Init ==
           ready |-> <<1>>, gates |-> {}, timers |-> <<>>, now |-> 0, dags |-> <<>>,
           outcome |-> <<"pending">>, errs |-> {},
           starts |-> <<>>, ends |-> <<>>, saves |-> <<>>, defaults |-> <<>>, badstart |-> {}]
+
+Init == act = <<"init">> /\ st = InitSt(1)
 
 Running == st.outcome = <<"pending">>
 
@@ -597,7 +599,8 @@ AtMostOnce == \A i \in 1..Len(st.starts) :
 CleanStarts == st.badstart = {}
 (* C19 (model level): at most one save per node outside recurrent sub-graphs *)
 (* C01/C05: value / failure as the reference semantics (Dataflow.tla) says for the instance's program *)
-SemR == Sem(G.prog, G.prog.runs[1], 1).r
+SemOfRun(r) == Sem(G.prog, G.prog.runs[r], r).r
+SemR == SemOfRun(1)
 OutcomeOK ==
     st.outcome = <<"pending">> \/ G.prog.amb \/ st.outcome[1] = "cancelled" \/
     (IF SemR[1] = "V" THEN st.outcome[1] = "value" /\ st.outcome[2] # Absent /\ st.outcome[2][1] # "err"
